@@ -64,7 +64,8 @@ def parse_file(path: Path) -> Union[pymoca.ast.Tree, None]:
         elif log.level == logging.DEBUG:
             log.debug(json.dumps(ast.to_json(ast), indent=2))
     # KeyError and AttributeError are problems in ASTListener
-    except (KeyError, AttributeError, OSError):
+    # UnicodeDecodeError: file is not valid UTF-8
+    except (KeyError, AttributeError, OSError, UnicodeDecodeError):
         if log.level in (logging.DEBUG, logging.INFO):
             log.exception('Parse error in file "%s"', path)
         else:
